@@ -1,7 +1,8 @@
 (* C14 - parallel, sequential and fragment-wise encoding produce identical bytes.
    Property theorems only; proofs are in proofs/SplitProofs.v.  Model: model/Split.v
    (src/split.rs get_fragment_height / SplitView, src/encode/mod.rs encode_parallel). *)
-From DDSV Require Import base.Machine model.Split model.Formats gen.GenFormats proofs.SplitProofs.
+From DDSV Require Import base.Machine model.Split model.Formats gen.GenFormats proofs.SplitProofs model.EncBlocks proofs.EncBlocksProofs.
+From Coq Require Import List.
 
 (* fragments cover the image exactly once, in order: fragment i is rows [i*fh, min((i+1)*fh, h)), never
    empty, computed without u32 overflow; all but the last have exactly the full fragment height, which is
@@ -59,6 +60,13 @@ Example C14_ex_bc1 :
   fragment_rows 130 (Some 124) 1 = Some (124, 130).
 Proof. vm_compute. auto. Qed.
 
+(* the locality the fragment-wise encoding rests on, for the block formats: the blocks gathered from the first k * 4 rows
+   and from the remaining rows separately are the blocks gathered from the whole surface (model/EncBlocks.v, tag 55) - a
+   fragment boundary at a multiple of the block height never changes what any block encoder is given *)
+Theorem C14_block_rows_local : forall (X : Type) (bw bh : nat) (d : X), (1 <= bh)%nat -> forall (w : nat) (a b : list (list X)) (k : nat),
+  length a = (k * bh)%nat -> image_blocks X bw bh d w (a ++ b) = image_blocks X bw bh d w a ++ image_blocks X bw bh d w b.
+Proof. exact image_blocks_app. Qed.
+
 Definition C14_all := (C14_fragments_partition, C14_fragment_height_facts, C14_no_split_under_global_dithering,
-  C14_group_local_concat, C14_parallel_eq_sequential, C14_split_formats_local).
+  C14_group_local_concat, C14_parallel_eq_sequential, C14_split_formats_local, C14_block_rows_local).
 Redirect "props/C14.assumptions" Print Assumptions C14_all.
